@@ -133,6 +133,37 @@ def expand(history, maxnest, depth, case):
     return out
 
 
+SHAPES = [
+    {"k": "cpp_member", "doc": 1, "types": [], "params": ["key", "value"]},            # fewer declared types than names
+    {"k": "cpp_member", "doc": 0, "types": ["int"], "params": ["a", "b", "c"]},
+    {"k": "cpp_constructor", "doc": 1, "types": [], "params": ["size"]},
+    {"k": "cpp_member", "doc": 1, "types": ["int", "str"], "params": ["a"]},           # more declared types than names
+    {"k": "cpp_member", "doc": 1, "types": ["int"], "params": ["args"]},               # a parameter that is called 'args'
+    {"k": "cpp_member", "doc": 1, "types": ["int", "str"], "params": ["a", "b"], "declgap": ""},
+    {"k": "cpp_member", "doc": 0, "types": ["int"], "params": ["a"], "declgap": "\n"},
+    {"k": "cpp_member", "doc": 1, "types": ["int"], "params": ["a"], "declgap": "# the implementation follows", "impl": "macro"},
+    {"k": "cpp_constructor", "doc": 1, "types": ["int"], "params": ["x"], "declgap": "#[[ bracket ]]"},
+    {"k": "cpp_constructor", "doc": 0, "types": ["int", "args"], "params": ["x"], "declgap": "# one\n\n# two"},
+]
+
+
+def shape_jobs():
+    """member/constructor declarations whose shape the BFS alphabet has one spelling of, in five class contexts"""
+    c0, c1, m0, at = CLASSES[0], CLASSES[1], MEMBERS[1], ATTRS[1]
+    jobs = []
+    for sh in SHAPES:
+        cl = {"k": "close"}
+        for ctx_ in ([c1, sh], [c0, m0, cl, sh], [c1, sh, cl, m0], [c1, c0, sh], [c0, at, sh, cl, at],
+                     [c1, sh, {"k": "cmake_parse_arguments"}, cl, dict(sh, doc=1 - sh["doc"])]):
+            jobs.append([dict(e) for e in ctx_])
+    return jobs
+
+
+def sweep_shape(h, case):
+    msgs, dg, nt = check(h, case)
+    return {"viol": msgs, "obs": dg, "nt": dg if nt else None, "n": len(CONFIGS), "cls": msgs[0].split(":")[0] if msgs else None}
+
+
 def run(ctx):
     quick = ctx.tier == "quick"
     maxnest, depth = (3, 6) if quick else (4, 8)
@@ -141,6 +172,9 @@ def run(ctx):
                          "alphabet_inside_class": len(enabled([CLASSES[0]], maxnest))}
     ctx.bfs(functools.partial(expand, maxnest=maxnest, depth=depth, case=case),
             (statespace.model_key([]), (), None), depth, space="bfs")
+    for cs in ("lower", "upper", "mixed"):
+        ctx.sweep(functools.partial(sweep_shape, case=cs), shape_jobs(), space=f"declaration shapes x class contexts, {cs} case",
+                  selftest=2)
     return RULE
 
 
